@@ -626,8 +626,9 @@ impl DOP853 {
                     }
                 }
 
-                // Normal exit
-                if last {
+                // Normal exit (a step of nominal length can land exactly on xend without having
+                // been flagged: x + 1.01*h rounds to xend when h is a few ulps of x)
+                if last || x == xend {
                     h = hnew;
                     status = Status::Success;
                     break;
